@@ -3,7 +3,7 @@ package main
 func init() {
 	register(&Prop{
 		ID:         "C08",
-		Decided:    "(1) half-open membership table of TimeSlot.Contains; (2) slot shapes: first slot starts at alignWindowStart(ts,slide) and ends at start+size, NextSlot shifts both ends by slide, and the current interval is only ever replaced by NextSlot() outside initialisation; (3) the watermark handler extracts a slot only under watermark>=End of that slot; (4) take predicate is exactly membership in the fired slot, and a row with ts>=Start+slide (needed by a later interval) is never evicted; (5) writers of SlidingWindow.data/currentSlot are the owner set (closeExpiredWindows is not among them); (6) currentSlot is advanced between loading the slot to fire and releasing the lock for delivery (fires once, in increasing order); (7) each taken row is stamped with the fired slot; (8) late policy of Add; (9) lock discipline of SlidingWindow. (10) the row buffer is used order-blind (append, element-wise rebuild, range loops): no positional read, binary search or prefix re-slice that would treat the arrival-ordered buffer as time-ordered. An in-place compaction of the buffer appends at most one row per row read and is committed (stored back) on every path to a return. Also: every time.Now() in the window's Add (the processing-time stamp of the row) is executed with the window lock held exclusively, so no Trigger can deliver the stamped interval between the clock read and the placement (locks/clock-read-under-lock). Also: no comparison in the window's methods has a buffered row's timestamp on one side and a time derived from the lateness allowance (closeTime, AllowedLateness) on the other: which rows belong to an expired window is decided by its interval alone (shape/row-eviction-ignores-lateness). Also: in the window's methods that send on its output channel, every receive from that channel (drop-oldest eviction) is followed on every path by an increment of droppedCount (flow/evicted-result-counted).",
+		Decided:    "(1) half-open membership table of TimeSlot.Contains; (2) slot shapes: first slot starts at alignWindowStart(ts,slide) and ends at start+size, NextSlot shifts both ends by slide, and the current interval is only ever replaced by NextSlot() outside initialisation; (3) the watermark handler extracts a slot only under watermark>=End of that slot; (4) take predicate is exactly membership in the fired slot, and a row with ts>=Start+slide (needed by a later interval) is never evicted; (5) writers of SlidingWindow.data/currentSlot are the owner set (closeExpiredWindows is not among them); (6) currentSlot is advanced between loading the slot to fire and releasing the lock for delivery (fires once, in increasing order); (7) each taken row is stamped with the fired slot; (8) late policy of Add; (9) lock discipline of SlidingWindow. (10) the row buffer is used order-blind (append, element-wise rebuild, range loops): no positional read, binary search or prefix re-slice that would treat the arrival-ordered buffer as time-ordered. An in-place compaction of the buffer appends at most one row per row read and is committed (stored back) on every path to a return. Also: every time.Now() in the window's Add (the processing-time stamp of the row) is executed with the window lock held exclusively, so no Trigger can deliver the stamped interval between the clock read and the placement (locks/clock-read-under-lock). Also: no comparison in the window's methods has a buffered row's timestamp on one side and a time derived from the lateness allowance (closeTime, AllowedLateness) on the other: which rows belong to an expired window is decided by its interval alone (shape/row-eviction-ignores-lateness). Also: in the window's methods that send on its output channel, every receive from that channel (drop-oldest eviction) is followed on every path by an increment of droppedCount (flow/evicted-result-counted). Also: the aligned start of an interval is computed from the timestamp's offset from the Unix epoch and never by time.Time.Truncate/Round (shape/epoch-aligned, shared with C01).",
 		NotDecided: "that every event appears in all ceil(size/slide) covering intervals under every arrival order (intervals that start before the first event's aligned slot are never created), contents under interleavings, aggregate values.",
 		Run:        runC08,
 	})
